@@ -174,23 +174,7 @@ def run(pid, tier):
                   "dominant": G.rnd_set(rng, 20, 5, 30, b"", b"a" * 60 + b"bcdefghij"),
                   "fib": sorted(set(bytes([60 + k]) * (1 + (1 << min(k, 6))) + bytes([60 + k + 1]) for k in range(12))),
                   "small": [b"aa", b"ab", b"abc", b"b", b"ba"]}
-        # geometric frequencies: byte k occurs about 2^(17-k) times, so the rarest bytes get codewords longer
-        # than the 16-bit chunk of the decoding table; strings start with every byte (rare bytes at bit offset 0)
-        geo = set()
-        for k, total in enumerate([130000, 65000, 32000, 16000, 8000, 4000, 2000, 1000, 500, 250, 120, 60, 30, 15, 8, 4, 2, 1]):
-            ch = bytes([65 + k])
-            L, used = 1, 0
-            while used + L <= total and L <= 500:
-                geo.add(ch * L)
-                used += L
-                L += 1
-        rare = [bytes([65 + k]) for k in range(10, 18)]
-        for r in rare:
-            geo.add(r + b"A")
-            geo.add(b"A" + r)
-            geo.add(b"AB" + r + b"C")
-            geo.add(r + r)
-        shapes["geometric"] = sorted(geo)
+        shapes["geometric"] = G.geometric_set()
         for kind in ("HTFC", "HHTFC", "HASHHF", "HASHUFFDAC"):
             for name, S in shapes.items():
                 pars = G.param_grid(kind, S, tier == "thorough")[:2]
